@@ -881,6 +881,23 @@ impl StorageEngine {
         }
     }
     
+    /// Resolve a (start, stop) pair of element indexes, either of which may count from the end,
+    /// against a sequence of `len` elements. Returns the inclusive range of positions they
+    /// select, or None when they select nothing: a start below the first element begins at
+    /// it, a stop beyond the last ends at it, but a stop before the first element or a start
+    /// beyond the last one is the empty range.
+    fn resolve_index_range(len: usize, start: isize, stop: isize) -> Option<(usize, usize)> {
+        let len = len as isize;
+        let start = if start < 0 { len.saturating_add(start) } else { start };
+        let stop = if stop < 0 { len.saturating_add(stop) } else { stop };
+        let start = if start < 0 { 0 } else { start };
+        if start > stop || start >= len {
+            return None;
+        }
+        let stop = if stop >= len { len - 1 } else { stop };
+        Some((start as usize, stop as usize))
+    }
+    
     pub fn zrange(&self, db: DatabaseIndex, key: &[u8], start: isize, stop: isize, reverse: bool) 
         -> Result<Vec<(Vec<u8>, f64)>> {
         let shard = self.get_shard(db, key)?;
@@ -890,38 +907,17 @@ impl StorageEngine {
             let result = match &stored_value.value {
                 Value::SortedSet(skiplist) => {
                     let len = skiplist.len();
-                    if len == 0 {
-                        Vec::new()
-                    } else {
-                        let start_idx = if start < 0 { 
-                            (len as isize + start).max(0) as usize
-                        } else {
-                            start as usize
-                        };
-                        
-                        let stop_idx = if stop < 0 {
-                            (len as isize + stop).max(0) as usize
-                        } else {
-                            stop as usize
-                        };
-                        
-                        if reverse {
-                            let real_start = len.saturating_sub(1).saturating_sub(stop_idx.min(len.saturating_sub(1)));
-                            let real_stop = len.saturating_sub(1).saturating_sub(start_idx.min(len.saturating_sub(1)));
-                            
-                            let range = skiplist.range_by_rank(real_start, real_stop);
-                            let mut items = range.items;
-                            items.reverse();
-                            items
-                        } else {
-                            if start_idx >= len || start_idx > stop_idx {
-                                Vec::new()
+                    match Self::resolve_index_range(len, start, stop) {
+                        None => Vec::new(),
+                        Some((first, last)) => {
+                            if reverse {
+                                // positions count from the highest score
+                                let range = skiplist.range_by_rank(len - 1 - last, len - 1 - first);
+                                let mut items = range.items;
+                                items.reverse();
+                                items
                             } else {
-                                let start_idx = start_idx.min(len - 1);
-                                let stop_idx = stop_idx.min(len - 1);
-                                
-                                let range = skiplist.range_by_rank(start_idx, stop_idx);
-                                range.items
+                                skiplist.range_by_rank(first, last).items
                             }
                         }
                     }
@@ -1183,18 +1179,15 @@ impl StorageEngine {
         if let Some(stored_value) = shard_guard.data.get_mut(key) {
             let result = match &stored_value.value {
                 Value::List(list) => {
-                    let len = list.len() as isize;
-                    
-                    let start = if start < 0 { (len + start).max(0) } else { start } as usize;
-                    let stop = if stop < 0 { (len + stop).max(0) } else { stop } as usize;
-                    
                     let mut result = Vec::new();
-                    for (i, item) in list.iter().enumerate() {
-                        if i >= start && i <= stop {
-                            result.push(item.clone());
-                        }
-                        if i > stop {
-                            break;
+                    if let Some((start, stop)) = Self::resolve_index_range(list.len(), start, stop) {
+                        for (i, item) in list.iter().enumerate() {
+                            if i >= start && i <= stop {
+                                result.push(item.clone());
+                            }
+                            if i > stop {
+                                break;
+                            }
                         }
                     }
                     result
@@ -1266,15 +1259,12 @@ impl StorageEngine {
         if let Some(stored_value) = shard_guard.data.get_mut(&key) {
             match &mut stored_value.value {
                 Value::List(list) => {
-                    let len = list.len() as isize;
-                    
-                    let start = if start < 0 { (len + start).max(0) } else { start } as usize;
-                    let stop = if stop < 0 { (len + stop).max(0) } else { stop } as usize;
-                    
                     let mut new_list = VecDeque::new();
-                    for (i, item) in list.iter().enumerate() {
-                        if i >= start && i <= stop {
-                            new_list.push_back(item.clone());
+                    if let Some((start, stop)) = Self::resolve_index_range(list.len(), start, stop) {
+                        for (i, item) in list.iter().enumerate() {
+                            if i >= start && i <= stop {
+                                new_list.push_back(item.clone());
+                            }
                         }
                     }
                     
